@@ -1831,8 +1831,155 @@ def check_C16(tier: str, seed: int) -> int:
         w.cleanup()
 
 
+
+# ==========================================================================
+# C12  memory used while loading is bounded by the bytes supplied
+# ==========================================================================
+def alloc_params(data: bytes) -> dict:
+    """the parameters of Model/Cost.v alloc_upper, measured on the input with the walker"""
+    import zlib
+    nframes = int.from_bytes(data[6:8], "little") if len(data) >= 8 else 0
+    layers = entities = payloads = zbytes = inflated = 0
+    for (_fi, _ci, s, e, t) in ase.chunk_spans(data):
+        plen = max(0, min(e, len(data)) - s - 6)
+        entities += 1 + plen // 6
+        if t == ase.CT_LAYER:
+            layers += 1
+        if t in (ase.CT_CEL, ase.CT_TILESET):
+            payloads += 1
+            zbytes += plen
+            # inflate every zlib stream that starts inside the payload (the decoder tries exactly one of them)
+            body = data[s + 6:min(e, len(data))]
+            best = 0
+            for off in range(0, min(len(body), 64)):
+                if body[off:off + 1] == b"\x78":
+                    try:
+                        d = zlib.decompressobj()
+                        out = d.decompress(body[off:], 1 << 28)
+                        best = max(best, len(out))
+                        if best > 4096:
+                            break
+                    except Exception:
+                        pass
+            inflated += best
+    return {"nframes": nframes, "consumed": len(data), "inflated": inflated, "entities": entities, "layers": layers,
+            "zbytes": zbytes, "payloads": payloads}
+
+
+def alloc_upper(p: dict) -> int:
+    return 16 * 2 ** 20 + 512 * p["nframes"] + 4 * p["consumed"] + 6 * p["inflated"] + 256 * p["entities"] + p["nframes"] * p["layers"]
+
+
+def c12_inputs(rng: random.Random, tier: str) -> List[Tuple[str, bytes]]:
+    out: List[Tuple[str, bytes]] = []
+    bases = [("gen%d" % i, d) for i, (s, d) in enumerate(small_sprites(rng, 6 if tier == "quick" else 40, max_canvas=6, max_layers=4, max_frames=3))]
+    cf = small_corpus(6000 if tier == "quick" else 60000)
+    bases += [(os.path.basename(p), open(p, "rb").read()) for p in (cf[:4] if tier == "quick" else cf)]
+    # every declared size / count / dimension / length field inflated to each larger boundary value, one at a time
+    for name, data in bases:
+        for f in ase.mutable_fields(data):
+            if f.kind not in ("size", "count", "dim", "length", "index"):
+                continue
+            cur = ase.get_field(data, f)
+            top = (1 << (8 * f.width)) - 1
+            for vv in sorted({cur * 2 + 1, 255, 65535, 1 << 24, (1 << 31) - 1, top - 1, top}):
+                if vv > cur and vv <= top:
+                    out.append(("%s:%s@%d:%d->%d" % (name, f.name, f.offset, cur, vv), ase.set_field(data, f, vv)))
+    # deflate bombs
+    def bomb_cel(w, h, depth):
+        bpp = {32: 4, 16: 2, 8: 1}[depth]
+        ch = [ase.LayerChunk()]
+        if depth == 8:
+            ch.insert(0, ase.PaletteChunk(entries=[(0, 0, 0, 255)]))
+        ch.append(ase.CelChunk(layer=0, w=w, h=h, pixels=b"\0" * (w * h * bpp), ctype_cel=2, zlevel=9))
+        return ase.serialize(ase.Sprite(width=4, height=4, depth=depth, frames=[ase.Frame(chunks=ch)]))
+    big = (2048, 2048) if tier == "quick" else (8192, 4096)
+    out.append(("bomb cel rgba %dx%d" % big, bomb_cel(big[0], big[1], 32)))
+    out.append(("bomb cel gray", bomb_cel(2048, 2048, 16)))
+    out.append(("bomb cel indexed", bomb_cel(4096, 2048, 8)))
+    out.append(("bomb cel declared larger than inflated", ase.serialize(ase.Sprite(width=4, height=4, frames=[ase.Frame(chunks=[
+        ase.LayerChunk(), ase.CelChunk(layer=0, w=65535, h=65535, zraw=ase.deflate(b"\0" * (1 << 24), 9), ctype_cel=2)])]))))
+    out.append(("bomb tileset", ase.serialize(ase.Sprite(width=4, height=4, frames=[ase.Frame(chunks=[
+        ase.TilesetChunk(id=0, tile_count=1024, tile_w=32, tile_h=32, pixels=b"\0" * (1024 * 32 * 32 * 4), zlevel=9)])]))))
+    out.append(("bomb tilemap", ase.serialize(ase.Sprite(width=4, height=4, frames=[ase.Frame(chunks=[
+        ase.TilesetChunk(id=0, tile_count=1, tile_w=1, tile_h=1, pixels=b"\0" * 4), ase.LayerChunk(ltype=2, tileset=0),
+        ase.CelChunk(layer=0, ctype_cel=3, w=2048, h=512, tiles=[0] * (2048 * 512), zlevel=9)])]))))
+    # tables driven by counts: many frames, many layers, frames x layers with one cel per frame on the top layer (D18)
+    out.append(("65535 empty frames", ase.serialize(ase.Sprite(width=1, height=1, frames=[ase.Frame() for _ in range(65535)]))))
+    out.append(("20000 layers", ase.serialize(ase.Sprite(width=1, height=1, frames=[ase.Frame(chunks=[ase.LayerChunk(name="") for _ in range(20000)])]))))
+    for F, L in ((1500, 3000), (4000, 8000)) if tier == "quick" else ((1500, 3000), (4000, 8000), (20000, 20000)):
+        frames = [ase.Frame(chunks=([ase.LayerChunk(name="") for _ in range(L)] if f == 0 else [])
+                            + [ase.CelChunk(layer=L - 1, w=1, h=1, pixels=b"\1\2\3\4", ctype_cel=0)]) for f in range(F)]
+        out.append(("%d frames x %d layers, one cel per frame on the top layer" % (F, L), ase.serialize(ase.Sprite(width=1, height=1, frames=frames))))
+    out.append(("65535 tags", ase.serialize(ase.Sprite(width=1, height=1, frames=[ase.Frame(chunks=[ase.TagsChunk(tags=[ase.Tag() for _ in range(65535)])])]))))
+    out.append(("slice with 50000 keys", ase.serialize(ase.Sprite(width=1, height=1, frames=[ase.Frame(chunks=[
+        ase.SliceChunk(name="s", keys=[ase.SliceKey() for _ in range(50000)])])]))))
+    out.append(("palette 0..65535", ase.serialize(ase.Sprite(width=1, height=1, frames=[ase.Frame(chunks=[
+        ase.PaletteChunk(first=0, entries=[(1, 2, 3, 255)] * 65536)])]))))
+    out.append(("30000 external files", ase.serialize(ase.Sprite(width=1, height=1, frames=[ase.Frame(chunks=[
+        ase.ExternalFilesChunk(entries=[(i, "") for i in range(30000)])])]))))
+    for name, data in special_files(rng):
+        out.append(("special:" + name, data))
+    return out
+
+
+def check_C12(tier: str, seed: int) -> int:
+    v = Verdict("C12", tier, seed, "proof")
+    ob = vplib.check_obligations("C12", expected=["C12_buffered_le_input", "C12_unzip_exact", "C12_unzip_bounded", "C12_bound_partial"])
+    vplib.build_harness(["release"])
+    w = Work("C12")
+    try:
+        rng = random.Random(seed)
+        inputs = c12_inputs(rng, tier)
+        paths = [w.put(d) for _, d in inputs]
+        res = vplib.run_sharded([vplib.impl_driver("release"), "alloc"], paths, w.dir, "alloc", shards=8, timeout=2400, mem_kb=12 * 1024 * 1024)
+        small = [i for i, (_, d) in enumerate(inputs) if len(d) <= 200000]
+        mres = vplib.model_observe([paths[i] for i in small], w.dir, 0)
+        mb = {i: mres[j] for j, i in enumerate(small)}
+        corr_fail, direct_fail = [], []
+        worst = (0.0, None)
+        classes = Counter()
+        for i, (desc, data) in enumerate(inputs):
+            b = res[i]
+            classes[desc.split(":")[0] if desc.startswith("special") else ("field" if "@" in desc else "shape")] += 1
+            l40 = next((l for l in b[0] if l[0] == 40), None) if b else None
+            io = outcome(b)
+            if io == 9 or l40 is None:
+                direct_fail.append({"what": "load aborted / was killed (allocation failure or memory limit)", "input": desc,
+                                    "comments": b[1][:3] if b else None, "_data": data if len(data) < 5000000 else None})
+                continue
+            n, peak, largest = l40[1], l40[2], l40[3]
+            limit = 64 * 2 ** 20 + 8192 * n
+            par = alloc_params(data)
+            up = alloc_upper(par)
+            worst = max(worst, (peak / limit, desc))
+            if peak > limit or largest > limit:
+                direct_fail.append({"what": "live heap %d B (largest request %d B) exceeds 64 MiB + 8192 B per input byte = %d B" % (peak, largest, limit),
+                                    "input": desc, "input_len": n, "_data": data if len(data) < 5000000 else None})
+            elif peak > up:
+                corr_fail.append({"input": paths[i], "desc": desc, "diff": "measured peak %d B exceeds the cost model's alloc_upper %d B (parameters %s)" % (peak, up, par),
+                                  "_data": data if len(data) < 5000000 else None})
+            if i in mb and outcome_class(outcome(mb[i])) != outcome_class(io):
+                corr_fail.append({"input": paths[i], "desc": desc, "diff": "outcome impl %d / model %d" % (io, outcome(mb[i]))})
+        proof_level_coverage(v, ob, {
+            "evaluations": len(inputs), "distinct_nontrivial": len({hashlib.sha1(d).hexdigest() for _, d in inputs}),
+            "rule": "every declared size / count / dimension / length / index field of the base files inflated to each larger boundary value up to the type maximum, "
+                    "one at a time; deflate bombs (zeros at level 9) in a cel of each pixel format, a tileset and a tilemap, and a payload declared larger than it "
+                    "inflates; count-driven tables (65535 frames, 20000 layers, frames x layers with a cel on the top layer of every frame, 65535 tags, 50000 slice "
+                    "keys, 65536 palette entries, 30000 external files); the hostile shapes of C04; peak live bytes and largest request measured by a counting global "
+                    "allocator around AsepriteFile::read against 64 MiB + 8192 B/byte and against alloc_upper of Model/Cost.v",
+            "samples": [d for d, _ in inputs[:2] + inputs[-3:]], "classes": dict(classes),
+            "worst_peak_over_limit": round(worst[0], 4), "worst_input": worst[1],
+            "correspondence_disagreements": len(corr_fail), "direct_failures": len(direct_fail)})
+        v.assumptions = ["the allocator, Vec/HashMap/BTreeMap growth and struct layout are modelled by the cost function alloc_upper, validated by this measurement, not derived from the code",
+                         "inflate expands by at most 1032:1 (+64 bytes per payload)"]
+        return finish_with(v, ob, corr_fail, direct_fail)
+    finally:
+        w.cleanup()
+
+
 CHECKS: Dict[str, Callable[[str, int], int]] = {"C01": check_C01, "C02": check_C02, "C03": check_C03, "C17": check_C17, "C04": check_C04, "C05": check_C05, "C06": check_C06,
-                                                "C07": check_C07, "C08": check_C08, "C09": check_C09, "C10": check_C10, "C11": check_C11, "C15": check_C15, "C16": check_C16, "C13": check_C13, "C18": check_C18, "C14": check_C14, "C19": check_C19}
+                                                "C07": check_C07, "C08": check_C08, "C09": check_C09, "C10": check_C10, "C11": check_C11, "C12": check_C12, "C15": check_C15, "C16": check_C16, "C13": check_C13, "C18": check_C18, "C14": check_C14, "C19": check_C19}
 
 
 
